@@ -10,31 +10,39 @@ import (
 	"verif/internal/flow"
 )
 
-// R-C14-1: decision-table extraction on the level loop of findSubscribers.
+// R-C14-1: decision-table extraction on the matcher (findSubscribers and the same-package helpers
+// it calls, interpreted in place by the flow engine).
 //
-// Roles (all by object identity):
-//   levels            first result of the level source call
-//   L                 the range loop over levels; its value variable is the topic level
-//   mid               the range loop (inside L) over the frontier variable
-//   inner             the range loop (inside mid) over <mid value>.nodes; key = edge label, value = child
-//   descend           `next = append(next, ..., child, ...)` inside inner; next = the next frontier
-//   advance           `frontier = next` inside L after mid has been exhausted
-//   post              the range loop after L over the frontier
-//   collect           a collector call / inline copy loop (see c14env.collects)
+// Roles (all by object identity; loops in any of the three element-wise forms, see c14iterOf;
+// a variable "stands for" another through the parameter bindings of the helper calls):
+//   levels    first result of the level source call
+//   L         the loop (in the matcher) over levels; its element is the topic level
+//   edge loop the range loop — anywhere in the reach — over <n>.nodes with n the element of a loop
+//             (mid) over a slice that stands for the frontier; key = edge label, value = child
+//   descend   `next = append(next, ..., child, ...)` in the edge loop; next = the next frontier
+//   advance   `frontier = next` inside L after mid was exhausted, or `frontier = h(..)` where the
+//             helper h holds mid and returns next after it
+//   post      the loop after L over the frontier
+//   collect   a collector call / inline copy loop (see c14env.collects); classified by the dynamic
+//             context (inside an edge iteration / inside a post iteration), not by where it is written
 
 const (
-	c14evInL      = "ev:c14:inL"
-	c14evScanned  = "ev:c14:scanned"
-	c14evAdvanced = "ev:c14:advanced"
-	c14evNextNew  = "ev:c14:nextEmpty"
-	c14evRootInit = "ev:c14:rootInit"
-	c14evIn       = "ev:c14:inEdge"
-	c14evCollect  = "ev:c14:collect"
-	c14evDescend  = "ev:c14:descend"
-	c14evBadCol   = "ev:c14:collectOther"
-	c14evInP      = "ev:c14:inPost"
-	c14evSelf     = "ev:c14:self"
-	c14evHash     = "ev:c14:hashChild"
+	c14evInL       = "ev:c14:inL"
+	c14evScanned   = "ev:c14:scanned"
+	c14evAdvanced  = "ev:c14:advanced"
+	c14evViaHelper = "ev:c14:frontierFromHelper"
+	c14evRetNext   = "ev:c14:helperReturnsNext"
+	c14evNextNew   = "ev:c14:nextEmpty"
+	c14evRootInit  = "ev:c14:rootInit"
+	c14evInMid     = "ev:c14:inMid"
+	c14evIn        = "ev:c14:inEdge"
+	c14evCollect   = "ev:c14:collect"
+	c14evDescend   = "ev:c14:descend"
+	c14evBadCol    = "ev:c14:collectOther"
+	c14evInP       = "ev:c14:inPost"
+	c14evSelf      = "ev:c14:self"
+	c14evHash      = "ev:c14:hashChild"
+	c14evStray     = "ev:c14:strayCollect"
 )
 
 // c14emptySlice reports whether x evaluates to an empty (fresh) slice.
@@ -66,135 +74,249 @@ func c14lenZero(st *flow.State, r string) bool {
 	return st.Is("eq:"+l+"==0", flow.True) || st.Is("lt:"+l+"<1", flow.True) || st.Is("lt:0<"+l, flow.False)
 }
 
+// loop block kinds, uniform over range and for statements
+func c14isBody(k cfg.BlockKind) bool { return k == cfg.KindRangeBody || k == cfg.KindForBody }
+func c14isHead(k cfg.BlockKind) bool { return k == cfg.KindRangeLoop || k == cfg.KindForLoop }
+func c14isDone(k cfg.BlockKind) bool { return k == cfg.KindRangeDone || k == cfg.KindForDone }
+
+func c14loopBody(l ast.Stmt) *ast.BlockStmt {
+	switch t := l.(type) {
+	case *ast.RangeStmt:
+		return t.Body
+	case *ast.ForStmt:
+		return t.Body
+	}
+	return nil
+}
+
 func c14Find(e *c14env) {
 	c := e.c
-	f := fn(c, mq, "TopicManager", "findSubscribers")
-	if f == nil {
-		return
-	}
-	cons := fname(mq, "TopicManager", "findSubscribers")
+	f := e.role("find").f
+	cons := e.role("find").cons
 	src := e.levelSource(f, cons)
 	if src == nil {
 		return
 	}
-	all := c14ranges(f.Body)
+	rfs := reach(f, 3)
+	bind := c14bindings(f, 3)
+	// root follows parameter bindings up to the variable a helper's parameter stands for
+	var root func(o types.Object, depth int) types.Object
+	root = func(o types.Object, depth int) types.Object {
+		if o == nil || depth <= 0 {
+			return o
+		}
+		bs := bind[o]
+		if len(bs) == 0 {
+			return o
+		}
+		var r types.Object
+		for _, bd := range bs {
+			a := root(c14obj(bd.in, bd.arg), depth-1)
+			if a == nil || (r != nil && r != a) {
+				return o
+			}
+			r = a
+		}
+		return r
+	}
+	rootOf := func(o types.Object) types.Object { return root(o, 4) }
 
-	// ---- resolve the loops
-	var Ls []*ast.RangeStmt
-	for _, rs := range all {
-		if c14obj(f, rs.X) == src.levels {
-			Ls = append(Ls, rs)
+	// ---- the level loop (in the matcher itself)
+	var L ast.Stmt
+	var itL *c14iter
+	nL0 := 0
+	for _, l := range c14loops(f.Body) {
+		if it := c14iterOf(f, l); it != nil && c14obj(f, it.slice) == src.levels {
+			L, itL = l, it
+			nL0++
 		}
 	}
-	if len(Ls) != 1 {
-		c.Errorf("R-C14-1: anchor: %s has %d loops over the validated levels, expected exactly 1", cons, len(Ls))
+	if nL0 != 1 {
+		c.Errorf("R-C14-1: anchor: %s has %d loops over the validated levels, expected exactly 1", cons, nL0)
 		return
 	}
-	L := Ls[0]
-	topicLevelID, _ := L.Value.(*ast.Ident)
-	if topicLevelID == nil || topicLevelID.Name == "_" {
-		c.Undecide("R-C14-1", cons+"|level loop", pos(c, L), "the level loop does not bind the topic level to a value variable")
+	if itL.elem == nil {
+		c.Undecide("R-C14-1", cons+"|level loop", pos(c, L), "the level loop does not bind the topic level to a variable")
 		return
 	}
-	topicLevel := f.Info.Defs[topicLevelID]
-	if topicLevel == nil {
-		topicLevel = f.Info.Uses[topicLevelID]
+	topicLevel := itL.elem
+
+	// ---- the edge loop, anywhere in the reach
+	type edgeLoop struct {
+		g     *flow.Func
+		inner *ast.RangeStmt
+		mid   *c14iter
 	}
-	var inner, mid *ast.RangeStmt
-	nInner := 0
-	for _, rs := range all {
-		if !contains(L.Body, rs) {
-			continue
-		}
-		x, ok := c14fieldRecv(f, rs.X, e.nodesF)
-		if !ok {
-			continue
-		}
-		ro := c14obj(f, x)
-		for _, m := range all {
-			if m != rs && contains(L.Body, m) && contains(m.Body, rs) && ro != nil && c14obj(f, m.Value) == ro {
-				inner, mid = rs, m
-				nInner++
+	var edges []edgeLoop
+	for _, g := range rfs {
+		loops := c14loops(g.Body)
+		for _, l := range loops {
+			rs, ok := l.(*ast.RangeStmt)
+			if !ok {
+				continue
+			}
+			x, ok := c14fieldRecv(g, rs.X, e.nodesF)
+			if !ok {
+				continue
+			}
+			ro := c14obj(g, x)
+			for _, m := range loops {
+				if m == l || !contains(c14loopBody(m), rs) || ro == nil {
+					continue
+				}
+				if it := c14iterOf(g, m); it != nil && it.elem == ro {
+					edges = append(edges, edgeLoop{g, rs, it})
+				}
 			}
 		}
 	}
-	if nInner != 1 {
-		c.Errorf("R-C14-1: anchor: %s: found %d loops over <frontier node>.nodes inside the level loop, expected exactly 1 (matcher rewritten? the rule must be revisited)", cons, nInner)
+	if len(edges) != 1 {
+		c.Errorf("R-C14-1: anchor: %s: found %d loops over <frontier node>.nodes in the matcher and its helpers, expected exactly 1 (matcher rewritten? the rule must be revisited)", cons, len(edges))
 		return
 	}
-	frontier := c14obj(f, mid.X)
+	gi, inner, mid := edges[0].g, edges[0].inner, edges[0].mid
+	frontier := rootOf(c14obj(gi, mid.slice))
 	edgeID, _ := inner.Key.(*ast.Ident)
-	childID, _ := inner.Value.(*ast.Ident)
-	if frontier == nil || edgeID == nil || childID == nil || edgeID.Name == "_" || childID.Name == "_" {
+	var edge, child types.Object
+	if edgeID != nil && edgeID.Name != "_" {
+		edge = c14obj(gi, edgeID)
+	}
+	if childID, _ := inner.Value.(*ast.Ident); childID != nil && childID.Name != "_" {
+		child = c14obj(gi, childID)
+	} else if edge != nil {
+		// for label := range node.nodes { child := node.nodes[label]; ... }
+		want := gi.Render(inner.X)
+		for _, st := range inner.Body.List {
+			if as, ok := st.(*ast.AssignStmt); ok && len(as.Lhs) == len(as.Rhs) {
+				for i, r := range as.Rhs {
+					if ix, ok := ast.Unparen(r).(*ast.IndexExpr); ok && gi.Render(ix.X) == want && c14obj(gi, ix.Index) == edge && child == nil {
+						child = c14obj(gi, as.Lhs[i])
+					}
+				}
+			}
+		}
+	}
+	if frontier == nil || edge == nil || child == nil {
 		c.Undecide("R-C14-1", cons+"|edge loop", pos(c, inner), "cannot identify frontier variable / edge label / child variables of the edge loop")
 		return
 	}
-	edge, child := c14obj(f, edgeID), c14obj(f, childID)
 	c.Count("R-C14-1:loops resolved (level, frontier, edge)", 3)
 
-	// ---- the levels are consulted only through the three comparisons
+	// ---- the levels are consulted only through the three comparisons (edge label in the edge
+	// loop's function; every variable standing for the topic level in its function)
 	usesOK := true
-	pm := parentMap(f.Body)
-	ast.Inspect(L.Body, func(n ast.Node) bool {
-		id, ok := n.(*ast.Ident)
-		if !ok {
-			return true
-		}
-		o := f.Info.Uses[id]
-		if o == nil || (o != edge && o != topicLevel) {
-			return true
-		}
-		p := pm[id]
-		for {
-			if pe, ok := p.(*ast.ParenExpr); ok {
-				p = pm[pe]
-				continue
-			}
-			break
-		}
-		switch pt := p.(type) {
-		case *ast.BinaryExpr:
-			if pt.Op == token.EQL || pt.Op == token.NEQ {
-				other := pt.X
-				if ast.Unparen(pt.X) == ast.Expr(id) {
-					other = pt.Y
-				}
-				oo := c14obj(f, other)
-				if s, isC := c14constStr(f, other); isC && (s == `"#"` || s == `"+"`) && o == edge {
-					return true
-				}
-				if (o == edge && oo == topicLevel) || (o == topicLevel && oo == edge) {
-					return true
-				}
-			}
-		case *ast.SwitchStmt:
-			if pt.Tag != nil && ast.Unparen(pt.Tag) == ast.Expr(id) {
+	var tlLocal types.Object // the variable compared with the edge label that stands for the topic level
+	for _, g := range rfs {
+		g := g
+		pm := parentMap(g.Body)
+		ast.Inspect(g.Body, func(n ast.Node) bool {
+			id, ok := n.(*ast.Ident)
+			if !ok {
 				return true
 			}
-		case *ast.CaseClause:
+			o := g.Info.Uses[id]
+			if o == nil {
+				return true
+			}
+			isEdge := o == edge
+			isTL := rootOf(o) == topicLevel
+			if !isEdge && !isTL {
+				return true
+			}
+			p := pm[id]
+			for {
+				if pe, ok := p.(*ast.ParenExpr); ok {
+					p = pm[pe]
+					continue
+				}
+				break
+			}
+			switch pt := p.(type) {
+			case *ast.BinaryExpr:
+				if pt.Op == token.EQL || pt.Op == token.NEQ {
+					other := pt.X
+					if ast.Unparen(pt.X) == ast.Expr(id) {
+						other = pt.Y
+					}
+					oo := c14obj(g, other)
+					if s, isC := c14constStr(g, other); isC && (s == `"#"` || s == `"+"`) && isEdge {
+						return true
+					}
+					if isEdge && oo != nil && rootOf(oo) == topicLevel {
+						tlLocal = oo
+						return true
+					}
+					if isTL && oo == edge {
+						tlLocal = o
+						return true
+					}
+				}
+			case *ast.IndexExpr:
+				// child := node.nodes[label] in a key-only edge loop
+				if isEdge && ast.Unparen(pt.Index) == ast.Expr(id) && g == gi && g.Render(pt.X) == g.Render(inner.X) {
+					return true
+				}
+			case *ast.SwitchStmt:
+				if pt.Tag != nil && ast.Unparen(pt.Tag) == ast.Expr(id) && isEdge {
+					return true
+				}
+			case *ast.CaseClause:
+				if isTL {
+					tlLocal = o
+				}
+				return true
+			case *ast.CallExpr:
+				// the topic level handed on to a helper (whose parameter then stands for it)
+				if isTL {
+					if fo := c14calleeOf(g, pt); fo != nil && fo.Pkg() == g.Pkg.Types && declOf(g.Pkg, fo) != nil {
+						return true
+					}
+				}
+			case *ast.AssignStmt:
+				// topicLevel := levels[i] binds it; nothing else may be assigned from it
+				for _, l := range pt.Lhs {
+					if ast.Unparen(l) == ast.Expr(id) {
+						return true
+					}
+				}
+			}
+			usesOK = false
+			c.Undecide("R-C14-1", cons+"|levels used only in the three comparisons", pos(c, id),
+				"the level value "+id.Name+" is used outside a comparison with '#', '+' or the other level ("+g.Render(id)+"): the transition table is no longer the matcher's complete local semantics")
 			return true
-		}
-		usesOK = false
-		c.Undecide("R-C14-1", cons+"|levels used only in the three comparisons", pos(c, id),
-			"the level value "+id.Name+" is used outside a comparison with '#', '+' or the other level ("+f.Render(id)+"): the transition table is no longer the matcher's complete local semantics")
-		return true
-	})
+		})
+	}
 	if usesOK {
-		c.Discharge("R-C14-1", cons+"|levels used only in the three comparisons", pos(c, L), "edge label and topic level occur only as operands of ==/!=/switch against '#', '+' and each other")
+		c.Discharge("R-C14-1", cons+"|levels used only in the three comparisons", pos(c, L), "edge label and topic level occur only as operands of ==/!=/switch against '#', '+' and each other (or are handed to a helper of the matcher)")
 	}
 
-	// ---- collect / descend / advance sites
-	cols := e.collects(f, f.Body)
-	colAt := map[ast.Node]c14collect{}
+	// ---- collect / descend sites over the reach
+	type colSite struct {
+		c14collect
+		g *flow.Func
+	}
+	colAt := map[ast.Node]colSite{}
 	var result types.Object
 	oneResult := true
-	for _, cl := range cols {
-		colAt[cl.at] = cl
-		if cl.dst != nil {
-			if result != nil && result != cl.dst {
-				oneResult = false
+	nCols := 0
+	collectorObjs := []types.Object{}
+	for fo := range e.collectors {
+		collectorObjs = append(collectorObjs, fo)
+	}
+	for _, g := range rfs {
+		if gd, ok := g.Node.(*ast.FuncDecl); ok && e.collectors[e.funcObj(gd)] != nil {
+			continue // the collector's own copy loop is its implementation (R-C14-5)
+		}
+		for _, cl := range e.collects(g, g.Body) {
+			colAt[cl.at] = colSite{cl, g}
+			nCols++
+			if cl.dst != nil {
+				d := rootOf(cl.dst)
+				if result != nil && result != d {
+					oneResult = false
+				}
+				result = d
 			}
-			result = cl.dst
 		}
 	}
 	if !oneResult {
@@ -209,93 +331,171 @@ func c14Find(e *c14env) {
 			return true
 		}
 		call, ok := ast.Unparen(as.Rhs[0]).(*ast.CallExpr)
-		if !ok || !c14isBuiltin(f, call, "append") || len(call.Args) < 2 {
+		if !ok || !c14isBuiltin(gi, call, "append") || len(call.Args) < 2 {
 			return true
 		}
-		lo := c14obj(f, as.Lhs[0])
-		if lo == nil || c14obj(f, call.Args[0]) != lo {
+		lo := c14obj(gi, as.Lhs[0])
+		if lo == nil || c14obj(gi, call.Args[0]) != lo {
 			return true
 		}
 		for _, a := range call.Args[1:] {
-			if c14obj(f, a) == child {
+			if c14obj(gi, a) == child {
 				descendAt[as] = true
 				next = lo
 			}
 		}
 		return true
 	})
-
-	var posts []*ast.RangeStmt
-	for _, rs := range all {
-		if rs.Pos() > L.End() && c14obj(f, rs.X) == frontier {
-			posts = append(posts, rs)
+	var nextRoot types.Object
+	if next != nil {
+		nextRoot = rootOf(next)
+	} else {
+		for _, call := range calls(inner.Body, false) {
+			fo := c14calleeOf(gi, call)
+			if fo == nil || fo.Pkg() != e.pkg.Types || e.collectors[fo] != nil {
+				continue
+			}
+			for _, a := range call.Args {
+				if c14obj(gi, a) == child {
+					c.Undecide("R-C14-1", cons+"|frontier advance", pos(c, call), "the edge loop hands the child to "+fo.Name()+" and does not append it to a next frontier itself: the descend decision is taken in a shape this rule does not read")
+					return
+				}
+			}
 		}
 	}
-	var post *ast.RangeStmt
+	isNext := func(g *flow.Func, x ast.Expr) bool {
+		o := c14obj(g, x)
+		return o != nil && nextRoot != nil && (o == next || rootOf(o) == nextRoot)
+	}
+	isFrontier := func(g *flow.Func, x ast.Expr) bool {
+		o := c14obj(g, x)
+		return o != nil && (o == frontier || rootOf(o) == frontier)
+	}
+
+	// ---- the loop over the final frontier: after the level loop in the matcher, or in a helper
+	// that the matcher calls after the level loop with the frontier
+	var posts []ast.Stmt
+	var postIt *c14iter
+	gp := f
+	for _, g := range rfs {
+		for _, l := range c14loops(g.Body) {
+			if l == mid.stmt || (g == f && l.Pos() <= L.End()) {
+				continue
+			}
+			it := c14iterOf(g, l)
+			if it == nil || !isFrontier(g, it.slice) {
+				continue
+			}
+			if g != f {
+				// g must be entered from the matcher after the level loop
+				after := false
+				gd, _ := g.Node.(*ast.FuncDecl)
+				for _, call := range calls(f.Body, false) {
+					if fo := c14calleeOf(f, call); fo != nil && gd != nil && fo == e.funcObj(gd) && call.Pos() > L.End() {
+						after = true
+					}
+				}
+				if !after {
+					continue
+				}
+			}
+			posts = append(posts, l)
+			postIt, gp = it, g
+		}
+	}
+	var post ast.Stmt
 	if len(posts) == 1 {
 		post = posts[0]
 	} else if len(posts) > 1 {
 		c.Undecide("R-C14-1", cons+"|parent-level '#'", pos(c, posts[1]), "more than one loop over the frontier after the level loop")
 	}
 	var postVal types.Object
-	var hashVal, hashOK types.Object
-	isHashExpr := func(x ast.Expr) bool {
+	if post != nil {
+		postVal = postIt.elem
+	}
+	standsFor := func(g *flow.Func, x ast.Expr, target types.Object) bool {
+		o := c14obj(g, x)
+		return o != nil && target != nil && (o == target || rootOf(o) == target)
+	}
+	isHashExpr := func(g *flow.Func, x ast.Expr) bool {
 		ix, ok := ast.Unparen(x).(*ast.IndexExpr)
-		if !ok {
+		if !ok || postVal == nil {
 			return false
 		}
-		r, ok := c14fieldRecv(f, ix.X, e.nodesF)
-		if !ok || c14obj(f, r) != postVal || postVal == nil {
+		r, ok := c14fieldRecv(g, ix.X, e.nodesF)
+		if !ok || !standsFor(g, r, postVal) {
 			return false
 		}
-		s, isC := c14constStr(f, ix.Index)
+		s, isC := c14constStr(g, ix.Index)
 		return isC && s == `"#"`
 	}
-	if post != nil {
-		postVal = c14obj(f, post.Value)
-		ast.Inspect(post.Body, func(n ast.Node) bool {
-			if as, ok := n.(*ast.AssignStmt); ok && len(as.Rhs) == 1 && isHashExpr(as.Rhs[0]) {
-				hashVal = c14obj(f, as.Lhs[0])
+	// variables bound to the '#' child of a final frontier node (anywhere in the reach)
+	hashVals := map[types.Object]bool{}
+	var absentKeys []string // facts that say "there is no '#' child"
+	for _, g := range rfs {
+		g := g
+		ast.Inspect(g.Body, func(n ast.Node) bool {
+			if as, ok := n.(*ast.AssignStmt); ok && len(as.Rhs) == 1 && isHashExpr(g, as.Rhs[0]) {
+				if o := c14obj(g, as.Lhs[0]); o != nil {
+					hashVals[o] = true
+					absentKeys = append(absentKeys, "nil:"+c14varRender(g, o)+"=T")
+				}
 				if len(as.Lhs) == 2 {
-					hashOK = c14obj(f, as.Lhs[1])
+					if o := c14obj(g, as.Lhs[1]); o != nil {
+						absentKeys = append(absentKeys, "v:"+c14varRender(g, o)+"=F")
+					}
 				}
 			}
 			return true
 		})
 	}
 
-	// a helper that receives the child / frontier node / result map may collect on the
-	// matcher's behalf: the table cannot be read off this function alone
-	for _, body := range []*ast.BlockStmt{inner.Body, func() *ast.BlockStmt {
-		if post != nil {
-			return post.Body
-		}
-		return nil
-	}()} {
+	// ---- helpers the matcher hands the child / frontier node / result map to must be interpreted
+	// in place; those that are not (method values, go/defer, variadic, recursion) hide decisions
+	type handed struct {
+		call *ast.CallExpr
+		fo   *types.Func
+		what string
+	}
+	var handedOver []handed
+	scanHandOver := func(g *flow.Func, body *ast.BlockStmt, targets ...types.Object) {
 		if body == nil {
-			continue
+			return
 		}
 		for _, call := range calls(body, false) {
-			fo, ok := f.Callee(call).(*types.Func)
-			if !ok || e.collectors[fo] != nil || fo.Pkg() == nil || fo.Pkg() != e.pkg.Types {
+			fo := c14calleeOf(g, call)
+			if fo == nil || e.collectors[fo] != nil || fo.Pkg() == nil || fo.Pkg() != e.pkg.Types {
 				continue
 			}
 			exprs := append([]ast.Expr{}, call.Args...)
-			if sel, ok := ast.Unparen(call.Fun).(*ast.SelectorExpr); ok {
-				exprs = append(exprs, sel.X)
+			if x := c14recvOf(g, call); x != nil {
+				exprs = append(exprs, x)
 			}
 			for _, a := range exprs {
-				if o := c14obj(f, a); o != nil && (o == child || o == postVal || o == result) {
-					c.Undecide("R-C14-1", cons+"|matcher split across helpers", pos(c, call), "the matcher hands "+o.Name()+" to "+fo.Name()+": collect/descend decisions taken there are not visible to the table extraction")
-					return
+				o := c14obj(g, a)
+				for _, t := range targets {
+					if o != nil && t != nil && (o == t || rootOf(o) == t) {
+						handedOver = append(handedOver, handed{call, fo, o.Name()})
+					}
 				}
 			}
 		}
 	}
+	scanHandOver(gi, inner.Body, child, result)
+	if post != nil {
+		scanHandOver(gp, c14loopBody(post), postVal, result)
+	}
 
-	hashKey := "eq:" + f.Render(edgeID) + `=="#"`
-	plusKey := "eq:" + f.Render(edgeID) + `=="+"`
-	eqKey := f.EqKey(edgeID, topicLevelID)
+	hashKey := "eq:" + c14varRender(gi, edge) + `=="#"`
+	plusKey := "eq:" + c14varRender(gi, edge) + `=="+"`
+	eqKey := ""
+	if tlLocal != nil {
+		a, b := c14varRender(gi, edge), c14varRender(gi, tlLocal)
+		if b < a {
+			a, b = b, a
+		}
+		eqKey = "eq:" + a + "==" + b
+	}
 
 	type rowStat struct {
 		n   int
@@ -305,22 +505,60 @@ func c14Find(e *c14env) {
 	rows := map[string]*rowStat{"'#'": {}, "'+'": {}, "equal": {}, "other": {}}
 	var undetermined *flow.State
 	undetWhy := ""
-	var badAdvance, badNextNew, badRoot, badPost *flow.State
+	var badAdvance, badNextNew, badRoot, badPost, badStray *flow.State
 	badPostWhy := ""
 	nL, nPost := 0, 0
 
+	isRootLit := func(g *flow.Func, r ast.Expr) bool {
+		cl, ok := ast.Unparen(r).(*ast.CompositeLit)
+		if !ok || len(cl.Elts) != 1 {
+			return false
+		}
+		_, isRoot := c14fieldRecv(g, cl.Elts[0], e.rootF)
+		return isRoot
+	}
+	collectEvent := func(st *flow.State, cs colSite) {
+		switch {
+		case st.Is(c14evIn, flow.True):
+			if standsFor(cs.g, cs.recv, child) {
+				st.Set(c14evCollect, flow.True)
+			} else {
+				st.Set(c14evBadCol, flow.True)
+			}
+		case st.Is(c14evInP, flow.True):
+			ro := c14obj(cs.g, cs.recv)
+			switch {
+			case standsFor(cs.g, cs.recv, postVal):
+				st.Set(c14evSelf, flow.True)
+			case (ro != nil && hashVals[ro]) || isHashExpr(cs.g, cs.recv):
+				st.Set(c14evHash, flow.True)
+			}
+		default:
+			st.Set(c14evStray, flow.True)
+			if badStray == nil {
+				badStray = st
+			}
+		}
+	}
+	except := append([]types.Object{}, collectorObjs...)
+	for fo := range e.roles.sources {
+		except = append(except, fo)
+	}
+	except = append(except, e.roles.split.obj)
+
 	res := analyze(c, f, flow.Config{
 		NoHavoc: true,
+		Inline:  inlineSamePkg(f, except...),
 		OnBlock: func(st *flow.State, b *cfg.Block) {
-			rs, _ := b.Stmt.(*ast.RangeStmt)
-			if rs == nil {
+			if b.Stmt == nil {
 				return
 			}
 			switch {
-			case rs == L && b.Kind == cfg.KindRangeLoop:
+			case b.Stmt == L && c14isHead(b.Kind):
 				if st.Is(c14evInL, flow.True) {
 					nL++
-					if !st.Is(c14evAdvanced, flow.True) && badAdvance == nil {
+					adv := st.Is(c14evAdvanced, flow.True) || (st.Is(c14evViaHelper, flow.True) && st.Is(c14evRetNext, flow.True))
+					if !adv && badAdvance == nil {
 						badAdvance = st
 					}
 				} else if !st.Is(c14evRootInit, flow.True) && badRoot == nil {
@@ -329,20 +567,38 @@ func c14Find(e *c14env) {
 				st.Set(c14evInL, flow.Unknown)
 				st.Set(c14evScanned, flow.Unknown)
 				st.Set(c14evAdvanced, flow.Unknown)
-			case rs == L && b.Kind == cfg.KindRangeBody:
+				st.Set(c14evViaHelper, flow.Unknown)
+				st.Set(c14evRetNext, flow.Unknown)
+			case b.Stmt == L && c14isBody(b.Kind):
 				st.Set(c14evInL, flow.True)
 				st.Set(c14evScanned, flow.False)
 				st.Set(c14evAdvanced, flow.False)
-			case rs == mid && b.Kind == cfg.KindRangeDone:
+				st.Set(c14evViaHelper, flow.False)
+				st.Set(c14evRetNext, flow.False)
+			case b.Stmt == mid.stmt && c14isHead(b.Kind):
+				if !st.Is(c14evInMid, flow.True) && next != nil {
+					// the scan of a level starts: the next frontier must be fresh
+					if !st.Is(c14evNextNew, flow.True) && badNextNew == nil {
+						badNextNew = st
+					}
+				}
+				st.Set(c14evInMid, flow.Unknown)
+			case b.Stmt == mid.stmt && c14isBody(b.Kind):
+				st.Set(c14evInMid, flow.True)
+			case b.Stmt == mid.stmt && c14isDone(b.Kind):
 				st.Set(c14evScanned, flow.True)
-			case rs == inner && b.Kind == cfg.KindRangeBody:
+			case b.Stmt == ast.Stmt(inner) && c14isBody(b.Kind):
 				st.Set(c14evIn, flow.True)
 				st.Set(c14evCollect, flow.False)
 				st.Set(c14evDescend, flow.False)
 				st.Set(c14evBadCol, flow.False)
-			case rs == inner && b.Kind == cfg.KindRangeLoop:
+			case b.Stmt == ast.Stmt(inner) && c14isHead(b.Kind):
 				if st.Is(c14evIn, flow.True) {
-					hash, plus, eq := st.Get(hashKey), st.Get(plusKey), st.Get(eqKey)
+					hash, plus := st.Get(hashKey), st.Get(plusKey)
+					eq := flow.Unknown
+					if eqKey != "" {
+						eq = st.Get(eqKey)
+					}
 					if hash == flow.Unknown && (plus == flow.True || eq == flow.True) {
 						// '+' excludes '#'; an edge equal to the topic level is '#' only for a topic
 						// name that itself contains '#', where descending and collecting after the
@@ -399,20 +655,23 @@ func c14Find(e *c14env) {
 				st.Set(c14evCollect, flow.Unknown)
 				st.Set(c14evDescend, flow.Unknown)
 				st.Set(c14evBadCol, flow.Unknown)
-			case post != nil && rs == post && b.Kind == cfg.KindRangeBody:
+			case post != nil && b.Stmt == post && c14isBody(b.Kind):
 				st.Set(c14evInP, flow.True)
 				st.Set(c14evSelf, flow.False)
 				st.Set(c14evHash, flow.False)
-			case post != nil && rs == post && b.Kind == cfg.KindRangeLoop:
+			case post != nil && b.Stmt == post && c14isHead(b.Kind):
 				if st.Is(c14evInP, flow.True) {
 					nPost++
 					if badPost == nil {
 						absent := false
-						if hashOK != nil && st.Is("v:"+c14varRender(f, hashOK), flow.False) {
-							absent = true
+						have := map[string]bool{}
+						for _, k := range st.Facts() {
+							have[k] = true
 						}
-						if hashVal != nil && st.Is("nil:"+c14varRender(f, hashVal), flow.True) {
-							absent = true
+						for _, k := range absentKeys {
+							if have[k] {
+								absent = true
+							}
 						}
 						switch {
 						case !st.Is(c14evSelf, flow.True):
@@ -428,20 +687,24 @@ func c14Find(e *c14env) {
 			}
 		},
 		OnCall: func(st *flow.State, call *ast.CallExpr, callee types.Object, d bool) {
-			if cl, ok := colAt[call]; ok {
-				c14collectEvent(f, st, cl, inner, post, child, postVal, hashVal, isHashExpr)
+			if cs, ok := colAt[call]; ok {
+				collectEvent(st, cs)
 			}
 		},
 		OnNode: func(st *flow.State, n ast.Node) {
-			if cl, ok := colAt[n]; ok && cl.call == nil {
-				c14collectEvent(f, st, cl, inner, post, child, postVal, hashVal, isHashExpr)
-			}
-			if n == ast.Node(mid.X) && next != nil {
-				if !st.Is(c14evNextNew, flow.True) && badNextNew == nil {
-					badNextNew = st
-				}
+			if cs, ok := colAt[n]; ok && cs.call == nil {
+				collectEvent(st, cs)
 			}
 			switch t := n.(type) {
+			case *ast.ReturnStmt:
+				// the helper that scanned the level hands the next frontier back
+				if st.Is(c14evScanned, flow.True) && contains(gi.Body, t) && gi != f {
+					for _, r := range t.Results {
+						if isNext(gi, r) {
+							st.Set(c14evRetNext, flow.True)
+						}
+					}
+				}
 			case *ast.AssignStmt:
 				if descendAt[t] {
 					st.Set(c14evDescend, flow.True)
@@ -449,52 +712,56 @@ func c14Find(e *c14env) {
 					return
 				}
 				if len(t.Lhs) != len(t.Rhs) {
+					// frontier, x = h(..)
+					if len(t.Rhs) == 1 && contains(L, t) {
+						for _, l := range t.Lhs {
+							if c14obj(f, l) == frontier {
+								if _, isCall := ast.Unparen(t.Rhs[0]).(*ast.CallExpr); isCall {
+									st.Set(c14evViaHelper, flow.True)
+								}
+							}
+						}
+					}
 					return
 				}
+				g := gi
+				if contains(f.Body, t) {
+					g = f
+				}
 				for i, l := range t.Lhs {
-					lo := c14obj(f, l)
+					lo := c14obj(g, l)
 					if lo == nil {
 						continue
 					}
 					r := ast.Unparen(t.Rhs[i])
-					if lo == frontier {
+					if g == f && lo == frontier {
 						if contains(L, t) {
-							if next != nil && c14obj(f, r) == next && st.Is(c14evScanned, flow.True) {
+							_, isCall := r.(*ast.CallExpr)
+							switch {
+							case isNext(f, r) && st.Is(c14evScanned, flow.True):
 								st.Set(c14evAdvanced, flow.True)
-							} else {
+							case isCall && gi != f:
+								st.Set(c14evViaHelper, flow.True)
+							default:
 								st.Set(c14evAdvanced, flow.False)
 							}
 						} else if t.Pos() < L.Pos() {
-							rootInit := false
-							if cl, ok := r.(*ast.CompositeLit); ok && len(cl.Elts) == 1 {
-								if _, isRoot := c14fieldRecv(f, cl.Elts[0], e.rootF); isRoot {
-									rootInit = true
-								}
-							}
-							st.Set(c14evRootInit, c14boolToVal(rootInit))
+							st.Set(c14evRootInit, c14boolToVal(isRootLit(f, r)))
 						}
 					}
-					if next != nil && lo == next {
-						st.Set(c14evNextNew, c14boolToVal(c14emptySlice(f, r)))
+					if next != nil && (lo == next || (nextRoot != nil && rootOf(lo) == nextRoot)) {
+						st.Set(c14evNextNew, c14boolToVal(c14emptySlice(g, r)))
 					}
 				}
 			case *ast.ValueSpec:
 				for i, nm := range t.Names {
 					o := f.Info.Defs[nm]
-					if next != nil && o == next {
+					if next != nil && o != nil && (o == next || rootOf(o) == nextRoot) {
 						empty := len(t.Values) == 0 || (i < len(t.Values) && c14emptySlice(f, t.Values[i]))
 						st.Set(c14evNextNew, c14boolToVal(empty))
 					}
-					if o == frontier && t.Pos() < L.Pos() {
-						rootInit := false
-						if i < len(t.Values) {
-							if cl, ok := ast.Unparen(t.Values[i]).(*ast.CompositeLit); ok && len(cl.Elts) == 1 {
-								if _, isRoot := c14fieldRecv(f, cl.Elts[0], e.rootF); isRoot {
-									rootInit = true
-								}
-							}
-						}
-						st.Set(c14evRootInit, c14boolToVal(rootInit))
+					if o == frontier && t.Pos() < L.Pos() && contains(f.Body, t) {
+						st.Set(c14evRootInit, c14boolToVal(i < len(t.Values) && isRootLit(f, t.Values[i])))
 					}
 				}
 			}
@@ -503,21 +770,26 @@ func c14Find(e *c14env) {
 	if res == nil {
 		return
 	}
+	inlined := map[string]bool{}
+	for _, n := range res.Inlined {
+		inlined[n] = true
+	}
+	for _, h := range handedOver {
+		hd := declOf(e.pkg, h.fo)
+		if hd == nil || !inlined[flow.NewFunc(e.pkg, hd).Name] {
+			c.Undecide("R-C14-1", cons+"|matcher split across helpers", pos(c, h.call), "the matcher hands "+h.what+" to "+h.fo.Name()+", which the flow engine could not interpret in place (method value, go/defer, variadic or recursive call): collect/descend decisions taken there are not visible to the table extraction")
+			return
+		}
+	}
 
 	// ---- collect sites only at '#' edges and after the last level
-	stray := 0
-	for _, cl := range cols {
-		if contains(inner.Body, cl.at) || (post != nil && contains(post.Body, cl.at)) {
-			continue
-		}
-		stray++
-		c.Violate("R-C14-1", cons+"|collect sites only at edges and after the last level", pos(c, cl.at),
-			"clients of "+f.Render(cl.recv)+" are collected outside the edge loop and outside the loop over the final frontier: nodes on the way (prefixes of the topic) or unrelated nodes contribute subscribers")
+	if badStray == nil {
+		c.Discharge("R-C14-1", cons+"|collect sites only at edges and after the last level", pos(c, L), sprintf("%d collect sites, all reached inside an edge iteration or an iteration over the final frontier", nCols))
+	} else {
+		c.Violate("R-C14-1", cons+"|collect sites only at edges and after the last level", pos(c, L),
+			"a node's clients are collected outside the edge loop and outside the loop over the final frontier: nodes on the way (prefixes of the topic) or unrelated nodes contribute subscribers", witness(badStray)...)
 	}
-	if stray == 0 {
-		c.Discharge("R-C14-1", cons+"|collect sites only at edges and after the last level", pos(c, L), sprintf("%d collect sites, all inside the edge loop or the loop over the final frontier", len(cols)))
-	}
-	c.RequireCount("R-C14-1", "collect sites in findSubscribers", len(cols), 1)
+	c.RequireCount("R-C14-1", "collect sites in findSubscribers", nCols, 1)
 
 	// ---- the table
 	c.RequireCount("R-C14-1", "abstract level iterations explored", nL, 1)
@@ -569,23 +841,23 @@ func c14Find(e *c14env) {
 		}
 		c.Check(ok, "R-C14-1", cons+"|parent-level '#'", pos(c, post),
 			sprintf("%d abstract iterations over the final frontier: own clients collected, '#' child collected or absent", nPost), badPostWhy, witness(badPost)...)
-		if ex := breaksOut(f, post, labelOf(f.Body, post)); len(ex) > 0 {
+		if ex := breaksOut(gp, post, labelOf(gp.Body, post)); len(ex) > 0 {
 			c.Violate("R-C14-1", cons+"|final frontier fully visited", pos(c, ex[0]), "a statement leaves the loop over the final frontier early: subscribers under the frontier nodes not yet visited (map/slice order) are dropped")
 		} else {
 			c.Discharge("R-C14-1", cons+"|final frontier fully visited", pos(c, post), "no return/break/goto/panic inside the loop over the final frontier")
 		}
 	}
-	ex := breaksOut(f, mid, labelOf(f.Body, mid))
-	ex = append(ex, breaksOut(f, inner, labelOf(f.Body, inner))...)
+	ex := breaksOut(gi, mid.stmt, labelOf(gi.Body, mid.stmt))
+	ex = append(ex, breaksOut(gi, inner, labelOf(gi.Body, inner))...)
 	if len(ex) > 0 {
 		c.Violate("R-C14-1", cons+"|every edge of every frontier node visited", pos(c, ex[0]), "a statement leaves the frontier/edge loops early: the remaining children (map order) are neither collected nor descended into")
 	} else {
-		c.Discharge("R-C14-1", cons+"|every edge of every frontier node visited", pos(c, mid), "no return/break/goto/panic inside the frontier and edge loops")
+		c.Discharge("R-C14-1", cons+"|every edge of every frontier node visited", pos(c, mid.stmt), "no return/break/goto/panic inside the frontier and edge loops")
 	}
 
 	// ---- exits
 	for _, x := range breaksOut(f, L, labelOf(f.Body, L)) {
-		if contains(mid, x) {
+		if gi == f && contains(mid.stmt, x) {
 			continue
 		}
 		if _, isRet := x.(*ast.ReturnStmt); !isRet {
@@ -603,14 +875,25 @@ func c14Find(e *c14env) {
 			continue // error path: R-C14-2
 		}
 		succ++
-		if result != nil && (len(ex.Return.Results) != 2 || c14obj(f, ex.Return.Results[0]) != result || !f.Info.Types[ex.Return.Results[1]].IsNil()) {
-			badResult = ex
+		rets := ex.Return.Results
+		if result != nil && (len(rets) != 2 || !standsFor(f, rets[0], result) || !f.Info.Types[rets[1]].IsNil()) {
+			// named results with a bare return
+			named := false
+			if len(rets) == 0 && f.Type.Results != nil && len(f.Type.Results.List) >= 1 && len(f.Type.Results.List[0].Names) == 1 {
+				if o := f.Info.Defs[f.Type.Results.List[0].Names[0]]; o != nil && o == result {
+					named = true
+				}
+			}
+			if !named {
+				badResult = ex
+			}
 		}
 		if contains(L, ex.Return) {
 			early++
 			st := ex.State
-			empty := c14lenZero(st, c14varRender(f, frontier)) || (next != nil && c14lenZero(st, c14varRender(f, next)))
-			if !st.Is(c14evScanned, flow.True) || !empty {
+			empty := c14lenZero(st, c14varRender(f, frontier)) || (next != nil && c14lenZero(st, c14varRender(gi, next)))
+			scanned := st.Is(c14evScanned, flow.True)
+			if !scanned || !empty {
 				badEarly = ex
 			}
 		}
@@ -639,24 +922,4 @@ func c14boolToVal(b bool) flow.Val {
 		return flow.True
 	}
 	return flow.False
-}
-
-// c14collectEvent classifies a collect site reached in the current state.
-func c14collectEvent(f *flow.Func, st *flow.State, cl c14collect, inner, post *ast.RangeStmt, child, postVal, hashVal types.Object, isHashExpr func(ast.Expr) bool) {
-	ro := c14obj(f, cl.recv)
-	switch {
-	case contains(inner.Body, cl.at):
-		if ro != nil && ro == child {
-			st.Set(c14evCollect, flow.True)
-		} else {
-			st.Set(c14evBadCol, flow.True)
-		}
-	case post != nil && contains(post.Body, cl.at):
-		switch {
-		case ro != nil && ro == postVal:
-			st.Set(c14evSelf, flow.True)
-		case (ro != nil && ro == hashVal) || isHashExpr(cl.recv):
-			st.Set(c14evHash, flow.True)
-		}
-	}
 }
